@@ -5,6 +5,7 @@ cd "$(dirname "$0")" || exit 2
 export GOFLAGS=-mod=mod GOPROXY=off GOSUMDB=off GOTOOLCHAIN=local GOWORK=off
 mkdir -p bin evidence replays
 go build -o bin/verifcheck ./cmd/verifcheck || exit 2
-go build -o /dev/null ./drivers/... || exit 2
-go build -race -o /dev/null ./drivers/... || exit 2
+go build -o /dev/null ./drivers/machdrv ./drivers/c06drv ./drivers/c03drv || exit 2
+go build -race -o /dev/null ./drivers/machdrv ./drivers/c06drv ./drivers/c03drv || exit 2
+GOTOOLCHAIN=local /opt/veriftools/go1.26.8/bin/go test -c -vet=off -o /dev/null ./drivers/c16drv || exit 2
 echo "setup ok"
